@@ -28,7 +28,7 @@ EXPLANATION = "explicit exploration of save/load cycles and declarative construc
 
 
 def budget_s(tier):
-    return 600 if tier == "quick" else 3600
+    return 1200 if tier == "quick" else 3600
 
 
 def edge_options(tier):
